@@ -99,6 +99,11 @@ CHECKS = {
          "Families over the side conditions the property names: sloppyLen (real / package-level / local shadow of len x 6 operand types x 3 comparisons), badCond (int, float incl. NaN, impure call, field operands x constant pairs x operator pairs), offBy1 (slice, named slice, string, array pointer, map, named map, alias, type-parameter containers x read/write/generic), caseOrder (all ordered case lists of length 2 and selected length 3 over {int, pointer, value, Stringer, error, interface{}, nil, *myErr}; two functions with same-named local types / type parameters that differ in what they implement), nilValReturn (6 types x real/shadowed nil x ==/!=), dupSubExpr/dupArg (11 operand kinds incl. impure calls, method calls, channel receive, map index x 6 operators). One text is analysed, one executed; they differ only by observation calls the template places itself. Observed condition values, panics, taken switch arms, returned nil-ness and operand equality must agree with every claim.",
          "Value grids and families bound the scope; a claim about a construct outside the families is not exercised.",
          "DESIGN.md section 3, C12"),
+ "C10": ("exploration",
+         "bounded-exhaustive enumeration of rewrite templates over operand alphabets; every proposed rewrite is executed against the original on full argument grids by the real toolchain (result, panic and side-effect trace compared)",
+         "About 300 template functions cover every checker the property lists: negated comparisons x 6 operators x {int, float64, named float, string}; range folds with decimal/octal/0o/hex literals x {int, uint8, float64, named float}; +1/-1 removal in 8 shapes x 4 numeric types; compound assignment for every operator, type and operand order; len/empty-string tests on string and named string; bytes/string comparisons; unslice; underef (field, method, array index); *new(T) over 14 types; lambda and deferred-lambda removal incl. callees reassigned between creation and use; Sprint removal incl. nil Stringer pointers; value swap incl. temporary used afterwards and impure indices; switch true; Yoda incl. impure operands; 15 strings/bytes predicates and wrappers; three Index-to-Cut shapes; 11 time-unit expressions. For each rewrite the real checker proposes (fix or quoted), the function is cloned with the rewrite applied; both run over the product of the parameter grids (ints -2..11, floats incl. NaN/-0/+-Inf, strings incl. multi-byte separators and absent separators, nil/non-nil pointers) and must produce identical transcripts.",
+         "Integer grids stay away from overflow (the property allows that assumption). Rewrites that do not compile in place are C09's subject. Checkers outside the property's list are ignored.",
+         "DESIGN.md section 3, C10"),
 }
 
 PENDING = {
